@@ -136,7 +136,7 @@ func refAt(ll LookupList, gd *gdef.Table, lk *LookupTable, seq []glyph.Info, i i
 				out = append(out, refCopy(seq[:i])...)
 				out = append(out, glyph.Info{GID: lig.Out, Text: text})
 				for _, k := range skipped {
-					out = append(out, refCopy(seq[k : k+1])...)
+					out = append(out, refCopy(seq[k:k+1])...)
 				}
 				out = append(out, refCopy(seq[j:])...)
 				return out, i + 1 + len(skipped), true
@@ -197,6 +197,46 @@ func refAt(ll LookupList, gd *gdef.Table, lk *LookupTable, seq []glyph.Info, i i
 			}
 			refAdjust(&out[j], adj.Second)
 			return out, j + 1, true
+		case *Gpos4_1:
+			// mark-to-base attachment: the mark at position i is attached to the nearest preceding glyph that is
+			// neither a mark nor skipped by the lookup flags; that glyph has to be covered as a base.  The mark is
+			// moved so that its anchor meets the anchor of the base for the mark's class; the pen has advanced over
+			// the base and every glyph in between (ignored or not), so all their advances are subtracted.
+			mi, ok := s.MarkCov[g]
+			if !ok {
+				continue
+			}
+			p := i - 1
+			for p >= 0 && (refSkip(meta, gd, seq[p].GID) || refIsMark(gd, seq[p].GID)) {
+				if _, covered := s.BaseCov[seq[p].GID]; covered {
+					refUndefined = true // a covered glyph that is a mark or ignored: the library's choice is not specified
+				}
+				p--
+			}
+			if p < 0 {
+				continue
+			}
+			bi, ok := s.BaseCov[seq[p].GID]
+			if !ok {
+				refUndefined = true // nearest base glyph not covered: implementations differ (this library keeps searching)
+				continue
+			}
+			rec := s.MarkArray[mi]
+			if int(rec.Class) >= len(s.BaseArray[bi]) {
+				continue
+			}
+			ba := s.BaseArray[bi][rec.Class]
+			if ba.IsEmpty() {
+				continue
+			}
+			out := refCopy(seq)
+			dx := ba.X - rec.X
+			for k := p; k < i; k++ {
+				dx -= seq[k].Advance
+			}
+			out[i].XOffset += dx
+			out[i].YOffset += ba.Y - rec.Y
+			return out, i + 1, true
 		case *SeqContext2:
 			if _, ok := s.Cov[g]; !ok || depth > 3 {
 				continue
@@ -340,6 +380,13 @@ func sameSeq(a, b []glyph.Info) bool {
 		}
 	}
 	return true
+}
+
+// refUndefined is set when the reference meets a situation whose outcome the specification leaves open.
+var refUndefined bool
+
+func refIsMark(gd *gdef.Table, g glyph.ID) bool {
+	return gd != nil && gd.GlyphClass != nil && gd.GlyphClass[g] == 3
 }
 
 type refPred func(glyph.ID) bool
